@@ -301,7 +301,8 @@ class MultiVector:
         return self.__class__.fromkeysvalues(self.algebra, keys=self.keys(), values=return_values)
 
     def __setitem__(self, indices, values):
-        if isinstance(values, MultiVector):
+        from_mv = isinstance(values, MultiVector)
+        if from_mv:
             if self.keys() != values.keys():
                 raise ValueError('setitem with a multivector is only possible for equivalent MVs.')
             values = values.values()
@@ -309,7 +310,7 @@ class MultiVector:
         if not isinstance(indices, tuple):
             indices = (indices,)
 
-        if isinstance(self.values(), (tuple, list)):
+        if isinstance(self.values(), (tuple, list)) or from_mv:
             for self_values, other_value in zip(self.values(), values):
                 self_values[indices] = other_value
         else:
